@@ -276,7 +276,8 @@ def lines(pt):
     if pt.mech == "LaplaceTruncated":
         return [f"m_trunc {e} {B(p['delta'])} {B(p['sensitivity'])} {B(p['lower'])} {B(p['upper'])} {B(v)}"]
     if pt.mech == "LaplaceFolded":
-        return [f"m_fold {e} {B(p['delta'])} {B(p['sensitivity'])} {B(p['lower'])} {B(p['upper'])} {B(v)}"]
+        folded = float(M.LaplaceFolded(**p)._fold(v))      # only used by the zero-scale branch of the model
+        return [f"m_fold {e} {B(p['delta'])} {B(p['sensitivity'])} {B(p['lower'])} {B(p['upper'])} {B(v)} {B(folded)}"]
     if pt.mech == "LaplaceBoundedDomain":
         return [f"m_bd {B(pt.meas['stored'])} {B(p['lower'])} {B(p['upper'])} {B(v)}"]
     if pt.mech == "Geometric":
@@ -500,6 +501,10 @@ def run_points(ctx, pts, mono=True):
             measure(pt)
         except seams.ScriptExhausted as e:
             ctx.disagree(f"moments.{pt.mech}.measure", {"params": pt.params, "value": pt.value}, "script exhausted", str(e))
+            continue
+        except (ArithmeticError, ValueError, TypeError, RecursionError) as e:
+            ctx.disagree(f"moments.{pt.mech}.raises", {"params": pt.params, "value": pt.value}, "moments",
+                         f"{type(e).__name__}: {e}")
             continue
         good.append(pt)
     all_lines, spans = [], []
